@@ -120,3 +120,10 @@ Theorem C14_flag_writes_in_source : flag_writes =
    ("POP", "__init__", true, false); ("POP", "_fit_algorithm", true, false); ("POP", "_sort_by_variance", true, true)]%string.
 Proof. exact flag_writes_known. Qed.
 Print Assumptions C14_flag_writes_in_source.
+
+(* the functions of this property whose Gallina counterpart is hand-written (or that only the oracles reach) still read, statement by statement, as they did when
+   the model was last validated against them (Gen/T9text.v regenerated from the source on every run; Proofs/Text_C14.v holds the validated text) *)
+From XV Require Gen.T9text Proofs.Text_C14.
+Theorem C14_hand_modelled_functions_read_as_validated : Text_C14.all_frozen.
+Proof. exact Text_C14.all_frozen_holds. Qed.
+Print Assumptions C14_hand_modelled_functions_read_as_validated.
